@@ -12,8 +12,8 @@ RULE = ("tree of four 131073-byte files that share prefix and suffix (two equal,
         "small files, on ext4 (deleted inode numbers are reused at once); events: edits {set content variant (same "
         "length; also with the new mtime in the past of the old one, with mtimes before 1970, and restoring the mtime the file had when it was first cached), append, truncate, rename, delete+recreate, hard-link, create, edit a small file} - every edit advances "
         "the file's mtime by 10 ms - and runs `group --cache` with a configuration from {metro, blake3, sha512} x {no transform, "
-        "transform cat} x --max-prefix-size {unset, 8192} or with the length-changing transforms `head -c 1000` / `head -c 70000` (same program, different classes), or one command string with and without --in-place, or a run SIGKILLed at 1/4, 1/2, 3/4 of its call history; "
-        "ALL histories (edit, run)^d after an initial cache-filling run: quick d=2 over 10 edits x 2 configurations + 5 edits x the (head, head2) switches + 5 x 3 edits under blake3 and sha512 (long digests); "
+        "transform cat} x --max-prefix-size {unset, 8192} or with a transform that fails for every file after two bytes of output, or with the length-changing transforms `head -c 1000` / `head -c 70000` (same program, different classes), or one command string with and without --in-place, or a run SIGKILLed at 1/4, 1/2, 3/4 of its call history; "
+        "ALL histories (edit, run)^d after an initial cache-filling run: quick d=2 over all ordered pairs of 10 edits, each with two of the four configuration pairs + 5 edits x the (head, head2) switches + 5 x 3 edits under blake3 and sha512 (long digests); "
         "thorough d=2 over the full alphabet and d=3 over 6 edits x 2 configurations (+ killed runs); (f) an edit applied WHILE a cached run (single-threaded, cold cache) is in progress - paused just before and just after every call that touches the edited file - followed by two complete cached runs; (g) two fresh tmpfs instances below the root whose k-th files have equal inode numbers, lengths and modification times: every sequence of three cached runs over {vol1, vol2, both}. A state is the "
         "tree + cache after a history prefix; a transition is one event. Invariant after every run: the report body "
         "(lengths, hashes, paths, order) of the cached run equals that of an uncached run of the same configuration on "
@@ -61,6 +61,9 @@ CONFIGS = {
     # the same command string read in two ways: its standard output (nothing), or the file it rewrote (--in-place)
     "metro_ip_off": ["--hash-fn", "metro", "--transform", "fcv-tr-inplace keep $IN"],
     "metro_ip_on": ["--hash-fn", "metro", "--transform", "fcv-tr-inplace keep $IN", "--in-place"],
+    # a transform that FAILS (exit status 1) after two bytes of output, for every file: a failed transform has no
+    # output, cached or not; and one that fails for the files of one content only
+    "metro_failpart": ["--hash-fn", "metro", "--transform", "fcv-tr failpart"],
     # a command that merely CONTAINS the text ' --in-place' as an argument of the program (the flag itself is not given)
     "metro_ip_text": ["--hash-fn", "metro", "--transform", "fcv-tr-inplace keep $IN --in-place"],
 }
@@ -73,9 +76,15 @@ def prepare(tier):
 def cases(tier, seed):
     out = []
     if tier == "quick":
-        steps = [(e, c) for e in EDITS_QUICK for c in ("metro", "metro_head")]
-        for h in itertools.product(steps, repeat=2):
-            out.append({"history": [list(map(list, h))[i] for i in range(2)], "kills": False})
+        # every ordered pair of edits; the configurations of the two runs rotate through the four combinations
+        # (thorough: the full product)
+        cfgs2 = [("metro", "metro"), ("metro", "metro_head"), ("metro_head", "metro"), ("metro_head", "metro_head")]
+        for i, e1 in enumerate(EDITS_QUICK):
+            for j, e2 in enumerate(EDITS_QUICK):
+                for k in (0, 1):
+                    c1, c2 = cfgs2[(i + 2 * j + k * (1 + (i + j) % 3)) % 4]
+                    h = ((e1, c1), (e2, c2))
+                    out.append({"history": [list(map(list, h))[x] for x in range(2)], "kills": False})
         # long digests (256 / 512 bits): cache hits next to misses (a new copy of cached content, a re-created file)
         mix = [("create", "F5", "V0"), ("recreate", "F3", "V0"), ("set", "F3", "V0"), ("hardlink", "F1", "F1h"), ("rename", "F1", "F1r")]
         for cfg in ("blake3", "sha512"):
@@ -101,6 +110,11 @@ def cases(tier, seed):
         for c1, c2 in (("metro_tr", "blake3_tr"), ("blake3_tr", "metro_tr")):
             for e1 in (("create", "F5", "V0"), ("set", "F3", "V0")):
                 for e2 in (("create", "F5", "V0"), ("recreate", "F3", "V0"), ("hardlink", "F1", "F1h")):
+                    out.append({"history": [[list(e1), c1], [list(e2), c2]], "kills": False})
+        # failing transforms: the same configuration again, and a switch to / from a working transform of the same program
+        for c1, c2 in (("metro_failpart", "metro_failpart"), ("metro_failpart", "metro_head"), ("metro_head", "metro_failpart")):
+            for e1 in (("create", "F5", "V0"), ("set", "F3", "V0"), ("rename", "F1", "F1r")):
+                for e2 in (("small", "s2"), ("hardlink", "F1", "F1h")):
                     out.append({"history": [[list(e1), c1], [list(e2), c2]], "kills": False})
         # switching between two transforms that run the same program with different arguments
         few = EDITS_QUICK[:3] + EDITS_QUICK[5:7]
